@@ -69,6 +69,9 @@ func DecodeRuns(bs []byte, w int) ([]Run, error) {
 			}
 			b := bs[pos]
 			pos++
+			if shift == 28 && b&0x7f >= 8 {
+				return nil, fmt.Errorf("%w: run header beyond 31 bits", ErrMalformed)
+			}
 			h |= uint64(b&0x7f) << shift
 			if b&0x80 == 0 {
 				break
